@@ -256,6 +256,7 @@ func checkC19(tier, replay string) int {
 		}
 	}
 	emulated := c19ImplicitArch(ctx, repo, scratch, archs, withTable)
+	ctx.Cov["programs_compared_between_a_64_bit_and_a_32_bit_build_of_the_library"] = c19CrossBuildPrograms(ctx, scratch)
 	ctx.Cov["goarchs_emulated_for_the_implicit_architecture_path"] = emulated
 	ctx.Cov["evaluations"] = asserts + built + int64(len(archs)) + int64(emulated)
 	ctx.Cov["distinct_nontrivial"] = built
@@ -274,7 +275,7 @@ func checkC19(tier, replay string) int {
 	}
 	sort.Strings(un)
 	ctx.Cov["constant_names_without_oracle_value"] = un
-	ctx.Cov["rule"] = "every GOOS/GOARCH pair of `go tool dist list` is built (thorough: additionally vetted, informational) with an overlay-added file per package that asserts, for every constant declared in the files selected for that target, equality with the vendored Linux UAPI value (two array-index expressions that only compile if equal; ENOSYS is 89 on linux/mips*, 38 elsewhere); file selection (loader vs stub) from go list; the stub file is parsed: no imports, no call expressions, Supported returns the literal false; GetInfo(goarch) for every GOARCH must have a table exactly for 386/amd64/arm/arm64; for every GOARCH a probe is built with an overlay that substitutes runtime.GOARCH in the library sources and run on the host: with the architecture left implicit, GetInfo(\"\") and Policy.Assemble must fail with an unsupported-architecture error on targets without tables and succeed on the four with tables; non-trivial = targets whose build with assertions succeeded"
+	ctx.Cov["rule"] = "every GOOS/GOARCH pair of `go tool dist list` is built (thorough: additionally vetted, informational) with an overlay-added file per package that asserts, for every constant declared in the files selected for that target, equality with the vendored Linux UAPI value (two array-index expressions that only compile if equal; ENOSYS is 89 on linux/mips*, 38 elsewhere); file selection (loader vs stub) from go list; the stub file is parsed: no imports, no call expressions, Supported returns the literal false; GetInfo(goarch) for every GOARCH must have a table exactly for 386/amd64/arm/arm64; for every GOARCH a probe is built with an overlay that substitutes runtime.GOARCH in the library sources and run on the host: with the architecture left implicit, GetInfo(\"\") and Policy.Assemble must fail with an unsupported-architecture error on targets without tables and succeed on the four with tables; a program probe (700+ policies over all four tables: whole tables, three groups, all operations x all argument indices x operands) is built for the host and for GOARCH=386, both are run here, and every program digest must be identical; non-trivial = targets whose build with assertions succeeded"
 	ctx.Sample(map[string]any{"target": "darwin/arm64", "assertion": "var _ = [1]struct{}{}[uint64(ActionAllow)-2147418112]"})
 	ctx.Assumptions = []string{"foreign targets are compiled and constant-evaluated by the real compiler, not executed", "vendored UAPI values from this image's linux/seccomp.h, linux/prctl.h, asm-generic/errno.h"}
 	return finishOrReplay(ctx, replay)
@@ -399,4 +400,46 @@ func c19ImplicitArch(ctx *evid.Ctx, repo, scratch string, archs []string, withTa
 		}
 	})
 	return int(done)
+}
+
+// c19CrossBuildPrograms: the same policies compiled by a 64-bit and by a 32-bit build of the library must give identical
+// programs (GOARCH=386 binaries run on this machine).
+func c19CrossBuildPrograms(ctx *evid.Ctx, scratch string) int {
+	outs := map[string]string{}
+	for _, ga := range []string{"amd64", "386"} {
+		bin := filepath.Join(scratch, "progprobe-"+ga)
+		args := []string{"build"}
+		if mf := os.Getenv("VERIF_MODFILE"); mf != "" {
+			args = append(args, "-modfile="+mf)
+		}
+		args = append(args, "-tags", "verif", "-o", bin, "./cmd/progprobe")
+		bc := exec.Command("go", args...)
+		bc.Dir = filepath.Join(evid.Root(), "harness")
+		bc.Env = append(os.Environ(), "GOARCH="+ga, "GOOS=linux", "CGO_ENABLED=0")
+		if b, err := bc.CombinedOutput(); err != nil {
+			ctx.Capped(fmt.Sprintf("program probe does not build for %s: %.300s", ga, b))
+			return 0
+		}
+		out, err := exec.Command(bin).Output()
+		if err != nil {
+			ctx.Capped(fmt.Sprintf("program probe for %s cannot run here: %v", ga, err))
+			return 0
+		}
+		outs[ga] = string(out)
+	}
+	a, b := strings.Split(outs["amd64"], "\n"), strings.Split(outs["386"], "\n")
+	n := 0
+	for i := 0; i < len(a) && i < len(b); i++ {
+		if a[i] == "" {
+			continue
+		}
+		n++
+		if a[i] != b[i] {
+			ctx.Violation("C19:cross-build-program:"+strings.SplitN(a[i], " ", 2)[0], fmt.Sprintf("the same policy compiles to different programs in a 64-bit and a 32-bit build of the library: amd64 build: %q, 386 build: %q", a[i], b[i]), map[string]any{"amd64": a[i], "386": b[i]})
+		}
+	}
+	if len(a) != len(b) {
+		ctx.Violation("C19:cross-build-program:count", "the program probe prints a different number of results in the two builds", nil)
+	}
+	return n
 }
